@@ -121,8 +121,11 @@ func runShellIn(c *Ctx, shell, dir, script string, args ...string) ShellResult {
 		if ee, ok := err.(*exec.ExitError); ok {
 			res.Status = ee.ExitCode()
 		} else {
+			// the oracle could not be started (e.g. a NUL byte in the script cannot travel in argv):
+			// no verdict, callers treat it like a timeout
 			res.Status = -1
 			res.Err = err.Error()
+			res.TimedOut = true
 		}
 	}
 	return res
